@@ -56,6 +56,11 @@ public:
 
     static UIntDict mul(const UIntDict &a, const UIntDict &b)
     {
+        if (a.get_dict().empty())
+            return a;
+        if (b.get_dict().empty())
+            return b;
+
         int mul = 1;
 
         unsigned int N = bit_length(std::min(a.degree() + 1, b.degree() + 1))
